@@ -605,6 +605,12 @@ def replay_corpus(ctx):
                                           "implementation": runs[idx]["obs"], "model": mv,
                                           "what": "model and implementation disagree on a recorded witness"})
     for w, r in zip(ws, runs):
+        if w.get("fixed"):               # a repaired finding: the witness is a regression case
+            if still_fails(w, r):
+                ctx.violation("regression_%s" % w["id"], {"what": "a finding that was fixed in /repo (%s) shows again: %s"
+                                                                   % (w["fixed"], w["what"]),
+                                                           "case": w["case"], "implementation": r["obs"]})
+            continue
         if still_fails(w, r):
             ctx.known(w["id"], w["what"])
         else:
